@@ -59,7 +59,7 @@ def build_rows(seed, d0, ndays, gappy=False, missing=False, weekend_rows=False, 
 def write_market(symbols, path):
     """symbols: {name: rows}; rows are written in list order (so a shuffled list gives an unsorted file)."""
     os.makedirs(path, exist_ok=True)
-    fmt = lambda x: '' if x is None else repr(float(x))     # noqa
+    fmt = lambda x: '' if x is None else (str(x) if isinstance(x, int) and not isinstance(x, bool) else repr(float(x)))     # noqa  (whole-number cells stay integers)
     for name, rows in symbols.items():
         with open(os.path.join(path, name + '.csv'), 'w') as f:
             f.write('Date,Open,High,Low,Close,Adj Close,Volume\n')
